@@ -65,6 +65,11 @@ Definition c05_check (k : c05_case) : bool * bool :=
             (* after the complete prefix, the bytes take the terminal -- from the clean state and
                from two dirty states -- exactly where the commands' meanings take it *)
             vt_complete pre
+            (* the same operations in the same order (SGR / print order, merged or dropped or
+               duplicated operations are all visible here) ... *)
+            && ops_eqb (vt_ops (pre ++ ib)) (vt_ops pre ++ flat_map (denote pal pal cp) cs)
+            (* ... and (implied by it; kept as the reading of the property in terms of terminal
+               state) the same final terminal state from the clean and from two dirty states *)
             && same_final_state (vt_ops (pre ++ ib)) (vt_ops pre ++ flat_map (denote pal pal cp) cs)
             && vt_complete (pre ++ ib)
         end )
